@@ -42,10 +42,16 @@ func init() { families["req"] = runReq }
 type verifCodec struct{}
 
 func (verifCodec) Name() string { return "verifc" }
+// poisonValue: a message the verifc codec refuses to marshal (a codec failing in Send, before any byte is written)
+var poisonValue = []byte{0xFA, 0x11, 0xED}
+
 func (verifCodec) Marshal(m any) ([]byte, error) {
 	pm, ok := m.(proto.Message)
 	if !ok {
 		return nil, fmt.Errorf("not a proto message")
+	}
+	if bv, ok := m.(*BV); ok && bytes.HasPrefix(bv.Value, poisonValue) {
+		return nil, fmt.Errorf("verifc: refusing to marshal a poisoned message")
 	}
 	return proto.Marshal(pm)
 }
